@@ -87,7 +87,49 @@ def _m(p, e, b: Binds) -> bool:
     return p == e
 
 
+# simple function name -> parameter order (without self/cls) when all repo functions of that name agree; set by the loader.
+# Lets `f(a, b)` match `f(x=a, y=b)`: both are brought to keyword form under the callee's signature.
+SIGNATURES: Dict[str, List[str]] = {}
+
+
+def _kw_form(c: ast.Call, sig: List[str]):
+    out = {}
+    args = list(c.args)
+    rest = bool(args) and _is_meta(args[-1]) == "___"
+    if rest:
+        args = args[:-1]
+    if len(args) > len(sig) or any(isinstance(a, ast.Starred) for a in args):
+        return None, rest
+    for name, a in zip(sig, args):
+        out[name] = a
+    for k in c.keywords:
+        if k.arg is None or k.arg in out:
+            return None, rest
+        out[k.arg] = k.value
+    return out, rest
+
+
 def _margs(p: ast.Call, e: ast.Call, b: Binds) -> bool:
+    b0 = dict(b)
+    if _margs_plain(p, e, b):
+        return True
+    name = e.func.attr if isinstance(e.func, ast.Attribute) else e.func.id if isinstance(e.func, ast.Name) else None
+    sig = SIGNATURES.get(name) if name else None
+    if sig is None or not (e.keywords or p.keywords):
+        return False
+    b.clear()
+    b.update(b0)
+    pk, rest = _kw_form(p, sig)
+    ek, _ = _kw_form(e, sig)
+    if pk is None or ek is None:
+        return False
+    for k, v in pk.items():
+        if k not in ek or not _m(v, ek[k], b):
+            return False
+    return rest or set(pk) == set(ek)
+
+
+def _margs_plain(p: ast.Call, e: ast.Call, b: Binds) -> bool:
     pargs = list(p.args)
     rest = bool(pargs) and _is_meta(pargs[-1]) == "___"
     if rest:
@@ -235,12 +277,35 @@ def single_defs(func: ast.AST) -> Dict[str, ast.AST]:
         if isinstance(n, ast.Attribute) and isinstance(n.ctx, (ast.Store, ast.Del)) and isinstance(n.value, ast.Name):
             mutated.add(n.value.id)  # `x.a = v`: an object under construction, the name stands for its identity
     mutated |= _returned_and_written(func)
-    return {k: v for k, v in defs.items() if count.get(k) == 1 and k not in params and k not in mutated and not _is_fresh_container(v)}
+    return {k: v for k, v in defs.items() if count.get(k) == 1 and k not in params and k not in mutated and not _is_fresh_container(v, func, k)}
 
 
-def _is_fresh_container(v: ast.AST) -> bool:
-    """`x = {}` / `[]` / `set()` ...: an accumulator that is mutated afterwards, not a name for a value"""
+def used_as_object(func: ast.AST, name: str) -> bool:
+    """the local is updated in place somewhere (method call on it, item/attribute store or delete, augmented assignment)"""
+    cache = getattr(func, "_mdsa_objnames", None)
+    if cache is None:
+        cache = set()
+        for n in walk_local(func):
+            if isinstance(n, ast.Call) and isinstance(n.func, ast.Attribute) and isinstance(n.func.value, ast.Name):
+                cache.add(n.func.value.id)
+            elif isinstance(n, (ast.Subscript, ast.Attribute)) and isinstance(n.ctx, (ast.Store, ast.Del)) and isinstance(n.value, ast.Name):
+                cache.add(n.value.id)
+            elif isinstance(n, ast.AugAssign) and isinstance(n.target, ast.Name):
+                cache.add(n.target.id)
+        try:
+            func._mdsa_objnames = cache
+        except AttributeError:
+            pass
+    return name in cache
+
+
+def _is_fresh_container(v: ast.AST, func: Optional[ast.AST] = None, name: Optional[str] = None) -> bool:
+    """`x = {}` / `[]` / `set()` ...: an accumulator that is mutated afterwards, not a name for a value.
+    A non-empty literal whose name is only ever read (`fields = {"a": 1}; f(update=fields)`) is a plain value."""
     if isinstance(v, (ast.Dict, ast.List, ast.Set)):
+        nonempty = bool(v.keys) if isinstance(v, ast.Dict) else bool(v.elts)
+        if nonempty and func is not None and name is not None and not used_as_object(func, name):
+            return False
         return True
     return isinstance(v, ast.Call) and isinstance(v.func, ast.Name) and v.func.id in ("dict", "list", "set", "OrderedDict", "defaultdict") and not v.args
 
